@@ -26,7 +26,9 @@ fn encode_gzip(value: Value, compression_level: Value) -> Resolved {
     let compression_level = if level > MAX_COMPRESSION_LEVEL {
         return Err(format!("compression level must be <= {MAX_COMPRESSION_LEVEL}").into());
     } else {
-        flate2::Compression::new(level)
+        // Level 10 only exists in flate2's miniz backend; the zlib backends assert on it, so the
+        // level is capped at the best level every backend supports.
+        flate2::Compression::new(level.min(flate2::Compression::best().level()))
     };
 
     let value = value.try_bytes()?;
